@@ -53,7 +53,7 @@ class DBusProperty:
             list(instance._iterIFaceCaches())
 
         if self.key is None:
-            self.key = self.interface + self.pname
+            self.key = (self.interface, self.pname)
 
         return instance._dbusProperties.get(self.key, None)
 
@@ -68,7 +68,7 @@ class DBusProperty:
             list(instance._iterIFaceCaches())
 
         if self.key is None:
-            self.key = self.interface + self.pname
+            self.key = (self.interface, self.pname)
 
         instance._dbusProperties[self.key] = value
 
